@@ -15,6 +15,14 @@ CLAIMED = {
          "All mutator histories of length 6 (quick) / 8 (thorough) for capacity 1..3 and both buffer kinds, with every observer after every mutator, plus long random histories (capacity 1..5, many wrap-arounds) and random INPUT.*/OUTPUT.* programs over 0..10 messages compared after every step. Exploration: longer histories and larger capacities are sampled.",
          "Trusted: the VecDeque model and the IO part of the reference interpreter (harness/src/refmodel2.rs). Print order is undocumented and compared as a multiset; OUTPUT.WRITE on a full queue is not value-checked.",
          "DESIGN.md section 4, C17"),
+ "C04": ("PBT against a reference model of the 41 scalar instructions + dev/release build-profile differential on identical generated cases",
+         "Each of the 41 scalar instruction names is executed by name on generated states (boundary x random operand pools, bystanders on every stack) and the complete snapshot is compared with the documented effect; the same deterministic case list is executed by the dev (overflow checks) and release binaries and must agree. Exploration over sampled operands; boundary values are always in the pool.",
+         "Trusted: reference table in harness/src/refmodel.rs (written from the doc comments; INTEGER.% follows the unit-test-pinned truncated remainder). Float functions compared within max(4 ulp, 1e-6 rel). BOOLEAN.FROMFLOAT/FROMINTEGER inversion is a listed known finding (pinned by unit tests).",
+         "DESIGN.md section 4, C04"),
+ "C05": ("exhaustive grid (type x op x depth x index) + proptest random states against one generic position-map reference; multiset conservation invariant",
+         "The grid of nine stack types x nine operations x depths 0..8 x boundary indices is enumerated completely with several value variations per cell; random states add arbitrary contents. Every type is compared with the same generic position map on the whole snapshot, plus a multiset conservation invariant. Depths above 8 are only sampled.",
+         "Trusted: the generic position map (refmodel::stack_op) and the clamp formula documented in the instruction comments.",
+         "DESIGN.md section 4, C05"),
 }
 PENDING_REASON = "check not built yet in this round (work in progress, see DESIGN.md section 4 for the planned check)"
 
